@@ -122,6 +122,24 @@ def run(rep, facts, tier):
                     '%s drops source texts on a path that keeps the code compiled from them (bb%s): a later failure inside that code has no '
                     'source, line or column to report' % (short(fn), '->bb'.join(map(str, (p or [])[:8]))), fn, w['at'])
     rep.floor('C17.R2 shrinking writes to sources', n_src, 1)
+    # which source a token belongs to is a question of identity: its parent IS the interned buffer.  A comparison of the text
+    # names the oldest source with the same content (`a b /` submitted twice: the second failure was put in <buffer#1>)
+    n_id = 0
+    for fn in sorted(fx.fns):
+        f = fx.fns[fn]
+        for bb, t in f.calls():
+            c = callee_of(t) or ''
+            if not (c.startswith('arcstr::arc_str::ArcStr::ptr_eq') or 'core::cmp::PartialEq' in c):
+                continue
+            txt = ' '.join(expr_str(f.expr_of_operand(a_), -12) for a_ in t['args'])
+            if 'Substr::parent' not in txt:
+                continue
+            n_id += 1
+            ok = 'ptr_eq' in c
+            rep.add('C17.R2', 'C17.R2:%s:source-of-a-token-by-identity' % fn, ok,
+                    'the parent buffer of the token is matched by identity' if ok else
+                    '%s finds the source of a token by comparing texts: of two sources with the same text the older one is named' % short(fn), fn, t.get('at'))
+    rep.floor('C17.R2 lookups of the source of a token', n_id, 1)
 
     # ---------- R2
     nt = fx.need('state::State::next_token')
